@@ -3,6 +3,8 @@
 From NDN Require Import Base.Prelude Model.TlvVar Model.Name.
 Local Open Scope N_scope.
 
+Definition T_NAME : N := 7.
+
 (* one top-level element of [w]: (type, whole element bytes, rest); None if not well-formed *)
 Definition next_element (w : bytes) : option (N * bytes * bytes) :=
   match tl_dec w with
@@ -38,8 +40,6 @@ Fixpoint from_type (fuel : nat) (t : N) (w : bytes) : option bytes :=
       end
   end.
 
-Definition T_NAME := 7.
-
 (* value bytes of the first top-level element of Type [t] *)
 Fixpoint value_of_type (fuel : nat) (t : N) (w : bytes) : option bytes :=
   match fuel with
@@ -73,8 +73,13 @@ Fixpoint components (fuel : nat) (v : bytes) : option (list bytes) :=
 
 Definition comp_type (c : bytes) : N := match tl_dec c with Ok (t, _) => t | Err _ => 0 end.
 
-(* Data value [v]: Name through SignatureInfo = everything before SignatureValue (Type 23) *)
-Definition signed_portion_data (v : bytes) : option bytes := before_type (S (length v)) 23 v.
+(* Data value [v]: Name through SignatureInfo = from the Name element (Type 7) up to but excluding
+   SignatureValue (Type 23) *)
+Definition signed_portion_data (v : bytes) : option bytes :=
+  match before_type (S (length v)) 23 v with
+  | Some pre => from_type (S (length pre)) T_NAME pre
+  | None => None
+  end.
 
 (* Interest value [v]: all name components except ParametersSha256 (Type 2), then from
    ApplicationParameters (Type 36) up to but excluding InterestSignatureValue (Type 46) *)
